@@ -483,6 +483,7 @@ pub struct Engine<'a> {
     pub fault_outcome: Option<String>,
     opened_once: bool,
     pending_damage: Option<u8>,
+    pending_restamp: bool,
 }
 
 type Cache<'b, 'tx> = HashMap<Path, Bucket<'b, 'tx>>;
@@ -505,6 +506,7 @@ impl<'a> Engine<'a> {
             fault_outcome: None,
             opened_once: false,
             pending_damage: None,
+            pending_restamp: false,
         }
     }
 
@@ -560,6 +562,9 @@ impl<'a> Engine<'a> {
 
     fn open(&mut self) -> Option<DB> {
         let existed = simos::bypass(|| std::path::Path::new(&self.cfg.path).exists());
+        if std::mem::take(&mut self.pending_restamp) && existed {
+            self.restamp_legacy();
+        }
         if let (Some(kind), true) = (self.pending_damage.take(), existed) {
             self.damage_older_header(kind);
         }
@@ -596,6 +601,36 @@ impl<'a> Engine<'a> {
                 self.fail("panic", &format!("open: {}", p), format!("open panicked: {}", p), false);
                 None
             }
+        }
+    }
+
+    /// Both headers are rewritten in the legacy format (same fields, SHA3-256 checksum): from
+    /// here on the history runs on a file "written by release 0.10".
+    fn restamp_legacy(&mut self) {
+        let ps = self.cfg.pagesize as usize;
+        let (buf, _) = match simos::file_view_prefix(&self.cfg.path, 2 * ps) {
+            Some(v) => v,
+            None => return,
+        };
+        if buf.len() < 2 * ps {
+            return;
+        }
+        let mut done = 0;
+        for slot in 0..2u64 {
+            if let Some(h) = fsck::valid_header(&buf, slot, self.cfg.pagesize, false) {
+                let base = slot as usize * ps;
+                let mut page = buf[base..base + ps].to_vec();
+                for b in page[fsck::REC_OFF..fsck::REC_OFF + fsck::REC_LEN_OLD].iter_mut() {
+                    *b = 0;
+                }
+                fsck::write_header(&mut page, &h, true);
+                if simos::foreign_write(&self.cfg.path, base as u64, &page[..fsck::REC_OFF + fsck::REC_LEN_OLD]) {
+                    done += 1;
+                }
+            }
+        }
+        if done > 0 {
+            self.out.stats.probe("headers_restamped_in_legacy_format");
         }
     }
 
@@ -733,6 +768,7 @@ impl<'a> Engine<'a> {
                 Step::CloseReader { idx } => self.close_reader(readers, idx),
                 Step::Check => self.check_now(db),
                 Step::DamageOlderHeader { kind } => self.pending_damage = Some(kind),
+                Step::RestampLegacy => self.pending_restamp = true,
                 _ => {}
             }
             if !readers.is_empty() {
@@ -884,7 +920,7 @@ impl<'a> Engine<'a> {
                     end = TxEnd::Reopen;
                     break;
                 }
-                Step::Begin { .. } | Step::Check | Step::DamageOlderHeader { .. } => continue,
+                Step::Begin { .. } | Step::Check | Step::DamageOlderHeader { .. } | Step::RestampLegacy => continue,
                 Step::OpenReader => {
                     self.open_reader(db, readers);
                 }
